@@ -272,8 +272,8 @@ impl Monitor for C14 {
     }
     fn cases(&self, tier: Tier) -> u64 {
         match tier {
-            Tier::Quick => 8_000,
-            Tier::Thorough => 250_000,
+            Tier::Quick => 60_000,
+            Tier::Thorough => 1_000_000,
         }
     }
     fn required_counters(&self) -> Vec<&'static str> {
@@ -320,6 +320,47 @@ impl Monitor for C14 {
                 }
                 for (s, d) in out {
                     rep.violation(s, d);
+                }
+            }
+        }
+
+        // ------------------------------------------------------------ (A') curves collected from an iterator
+        // FromIterator documents that it makes an arbitrary input monotonic (running maximum)
+        {
+            use std::iter::FromIterator;
+            let n = rng.usize(1, 7);
+            let raw: Vec<u64> = (0..n).map(|_| rng.range(0, 20)).collect();
+            let r = guard(|| {
+                let c = wcet::Curve::from_iter(raw.iter().map(|x| Service::from(*x)));
+                let cum: Vec<u64> = (0..=3 * n + 2).map(|k| u64::from(c.cost_of_jobs(k))).collect();
+                let items: Vec<u64> = c.job_cost_iter().take(3 * n + 2).map(u64::from).collect();
+                (cum, items)
+            });
+            rep.count("from_iter_curves_checked", 1);
+            match r {
+                Err(c) => rep.violation(format!("C14 model=Curve::from_iter kind={} class={}", c.kind, c.class()), jobj! {"input"=>&raw,"caught"=>c.to_json()}),
+                Ok((cum, items)) => {
+                    // running maximum = what the constructor promises for the first n values
+                    let mut hull = raw.clone();
+                    for i in 1..n {
+                        hull[i] = hull[i].max(hull[i - 1]);
+                    }
+                    let mut acc = 0;
+                    for k in 1..cum.len() {
+                        acc += items[k - 1];
+                        if cum[k] < cum[k - 1] {
+                            rep.violation("C14 model=Curve::from_iter kind=cost_of_jobs-decreases".to_string(), jobj! {"input"=>&raw,"n"=>k,"value"=>cum[k],"previous"=>cum[k-1]});
+                            break;
+                        }
+                        if cum[k] != acc {
+                            rep.violation("C14 model=Curve::from_iter kind=cost_of_jobs-differs-from-sum-of-job_cost_iter".to_string(), jobj! {"input"=>&raw,"n"=>k,"cost_of_jobs"=>cum[k],"sum"=>acc});
+                            break;
+                        }
+                        if k <= n && cum[k] != hull[k - 1] {
+                            rep.violation("C14 model=Curve::from_iter kind=not-the-running-maximum-of-the-input".to_string(), jobj! {"input"=>&raw,"n"=>k,"cost_of_jobs"=>cum[k],"running_maximum"=>hull[k-1]});
+                            break;
+                        }
+                    }
                 }
             }
         }
